@@ -11,6 +11,7 @@ for d in seeded/*/; do
   n=$(basename "$d"); p=${n%-*}
   if [ $# -gt 0 ]; then case " $* " in *" $p "*) ;; *) continue;; esac; fi
   want=$(python3 -c "import json;print(json.load(open('$d/meta.json'))['checked_against_verif']['detected'])")
+  p=$(python3 -c "import json;print(json.load(open('$d/meta.json')).get('checked_by_property_check','$p'))")
   if ! git -C /repo apply --check "/verif/$d/patch.diff" 2>/dev/null; then echo "$n: PATCH DOES NOT APPLY"; bad=1; continue; fi
   git -C /repo apply "/verif/$d/patch.diff"
   out=$(./check $p quick 2>&1); v=$(echo "$out" | grep -c "^VIOLATION")
